@@ -533,9 +533,11 @@ fn captured_case(
     all_expiry_points: bool,
     out: &mut Local,
 ) {
-    let far = far_deadline();
     let n = or.len();
     let m = nr.len();
+    // the Instant handed over is a dummy while a virtual clock is installed: far future for
+    // half of the cases, in the past for the other half
+    let far = dummy_deadline(n + m + a.len());
     let nontrivial = n > 0 && m > 0 && a[or.clone()] != b[nr.clone()];
     if nontrivial {
         out.nontrivial(&(focus.tag(), alg_name(alg), a, or.start, or.end, b, nr.start, nr.end));
